@@ -527,9 +527,11 @@ def queue_matrix_and_run(seed, on_job=None, mode=None, cfg_override=None, fault_
         gen = Gen(rng, cfg)
         n = rng.choice([2, 3, 3])
         dsts = gen.dests + gen.hot
+        stabs = [d_ for d_ in gen.dests if d_.startswith('stabilization/')]
+        focus = rng.choice(stabs) if stabs and rng.random() < 0.5 else None      # a pull request on a stabilization line
         for i in range(n):
             ev = gen.new_pr()
-            ev['dst'] = rng.choice(dsts)
+            ev['dst'] = focus if (focus and i == 0) else rng.choice(dsts)
             ev.pop('file', None)
             ev.pop('content', None)
             gen.prs[-1]['dst'] = ev['dst']
@@ -549,6 +551,9 @@ def queue_matrix_and_run(seed, on_job=None, mode=None, cfg_override=None, fault_
             if single and rounds == 0:
                 byver = sorted(q, key=lambda n_: (_ver_key(n_.split('/')[3]), n_))
                 bad = byver[min(len(byver) - 1, int(abs(rng.gauss(0, 1.2))))]
+                onstab = [n_ for n_ in q if n_.split('/')[3].count('.') == 2]
+                if focus and onstab and rng.random() < 0.7:
+                    bad = rng.choice(onstab)       # the queue commit of the stabilization branch is the one not green
                 order = list(q)
                 rng.shuffle(order)               # reports arrive in any order
                 for nme in order:
